@@ -7,14 +7,14 @@ D = os.path.dirname(os.path.dirname(os.path.abspath(__file__)))
 NOTE = ("Trusted base: the simulator (simrt step scheduler, simnet transport, testing/synctest fake clock), the source "
         "instrumenter (lock type, select polling order, reflect.Select, go-statement identity, map iteration order, jitter "
         "source; no statement otherwise added/removed/reordered), and the harness handlers/oracles. Search over seeds, not "
-        "proof. Pre-emption only at locks, multi-way selects, reflect.Select, simulated writes, dials and harness yields.")
+        "proof. Pre-emption at locks, multi-way selects, reflect.Select, simulated writes, dials, goroutine starts and harness yields in every run, and at every statement of a random subset of library functions in one run of six; never inside one statement or inside un-instrumented code (gorilla, net/http, encoding/json).")
 
 claimed = {
  "C02": ("exploration", "exploration", "3.x/4 C02",
          "Seeded search over schedules of the real client/server under a healthy simulated network: handler completion order, "
          "lock/select/transport interleavings, latency and TCP re-segmentation are PRNG decisions; oracles: every call returns "
          "(clock-free hang oracle), own-token result, one response frame per request id on the wire tap, handler ran once, "
-         "porcupine linearizability of a shared counter.",
+         "porcupine linearizability of a shared counter. Thorough tier: every completion-order permutation for N = 2..5 (152 variants) under many schedules; ws, http (with and without keep-alive) and custom transports.",
          "deterministic simulation (seeded step scheduler + simulated transport) with porcupine history check"),
  "C03": ("exploration", "fault_enumeration", "4 C03",
          "Seeded search (quick) and systematic sweep of fault kind x direction x frame x byte position (thorough) over the real "
@@ -38,7 +38,7 @@ claimed = {
          "C07's workload plus termination causes (handler close, subscription-context cancel after k yields, connection fault at frame x position, client close) singly and racing; oracles after heal + 12 fake minutes: every channel handed to a caller is closed, received is a prefix of sent, no double close (process death), no call left hanging.",
          "deterministic simulation with fault injection, prefix oracle and clock-free hang oracle"),
  "C17": ("exploration", "exploration", "4 C17",
-         "Fake-clock search over (ping, timeout, server ping) satisfying the documented constraint (timeouts 20 ms..60 s), handler durations up to 5x timeout, idle gaps up to 20x timeout, slow streams; healthy oracle (run-time invariant): no redial, no failed call, no lost stream; black-hole family: pending calls fail with the connection error and a redial starts within 3*timeout+2*ping of the peer falling silent.",
+         "Fake-clock search over (ping, timeout, server ping) satisfying the documented constraint (timeouts 20 ms..60 s), handler durations up to 5x timeout, idle gaps up to 20x timeout, slow streams; healthy oracle (run-time invariant): no redial, no failed call, no lost stream; black-hole family: pending calls fail with the connection error and a redial starts within 3*timeout+2*ping of the peer falling silent, also while the application keeps issuing calls; the healthy oracle is also applied to a connection re-established after a reset.",
          "deterministic simulation on a fake clock (testing/synctest) with black-hole fault injection"),
  "C18": ("exploration", "fault_enumeration", "4 C18",
          "The closer fires at scheduler step k of a mixed workload (queued/written/answered calls, large frames in chunks, streams, reconnect window, redial in progress); quick samples k, thorough sweeps k = 0..599; oracles after 12 fake minutes: closer returned, all calls returned, late calls fail, every handed channel closed, no dial after the closer returned, http/custom closers return and leave calls alone.",
